@@ -20,13 +20,15 @@ def run(ck):
     ex = open(path).read().splitlines()
     sets = {}
     for l in ex:
-        if l.startswith("set ") or l.startswith("q "):
+        if l.startswith("set ") or l.startswith("hset ") or l.startswith("q "):
             sets.setdefault(l.split(" ", 2)[1], []).append(l)
     witnessed = False
     for l in ex:
         if l.startswith("direct ") and " FAIL " in l:
             m = re.search(r"filter=(\S+) name=(\S+)", l)
-            ck.fail_input(l.split()[1], l, ["pair %s %s" % (m.group(1), m.group(2)), l] if m else [l])
+            sm = re.search(r"set=(\S+)", l)
+            ck.fail_input(l.split()[1], l, ["pair %s %s" % (m.group(1), m.group(2)), l] if m else
+                          (sets.get(sm.group(1), []) + [l] if sm else [l]))
             witnessed = True
     tie_only = []
     for l in lines:
@@ -37,7 +39,7 @@ def run(ck):
             if m:
                 rep = ["pair %s %s" % (m.group(1), m.group(2)), l]
             elif s:
-                rep = [x for x in sets.get(s.group(1), []) if x.startswith("set ") or x.split()[2] == s.group(2)] + [l]
+                rep = [x for x in sets.get(s.group(1), []) if x.startswith("set ") or x.startswith("hset ") or x.split()[2] == s.group(2)] + [l]
             else:
                 rep = [l]
             ck.fail_input(clause, l, rep)
